@@ -92,7 +92,8 @@ impl GetPid for K {
         self.inner.getpgrp()
     }
     fn getsid(&self, pid: Pid) -> Result<Pid> {
-        self.inner.getsid(pid)?;
+        // (VirtualSystem::getsid does not know pid 0 = the calling process)
+        self.inner.getsid(if pid.0 == 0 { self.inner.process_id } else { pid })?;
         if CFG.with(|c| c.borrow().session_leader_group) {
             Ok(Pid(MAIN_PGID.with(|m| m.get())))
         } else {
@@ -268,29 +269,50 @@ where
     use std::pin::pin;
     use yash_env::system::concurrency::Select as _;
     let mut task = pin!(task);
-    while poll!(&mut task).is_pending() {
+    loop {
+        // A process that has been stopped or terminated does not run (the run
+        // loop of yash-env looks at the state only after it has polled the task).
         match life(&sys) {
             Life::Running => {}
             Life::Stopped => {
-                if !while_stopped(&sys).await {
-                    continue;
+                if while_stopped(&sys).await {
+                    return;
                 }
-                return;
+                continue;
+            }
+            Life::Dead => return,
+        }
+        if poll!(&mut task).is_ready() {
+            return;
+        }
+        // stopped inside one of its own calls (kill, tcsetpgrp): the call goes on
+        // when the process runs again
+        match life(&sys) {
+            Life::Running => {}
+            Life::Stopped => {
+                if while_stopped(&sys).await {
+                    return;
+                }
+                continue;
             }
             Life::Dead => return,
         }
         let mut select = pin!(concurrent.select());
-        while poll!(&mut select).is_pending() {
+        loop {
             match life(&sys) {
-                Life::Running => pending!(),
+                Life::Running => {}
                 Life::Stopped => {
-                    if !while_stopped(&sys).await {
-                        continue;
+                    if while_stopped(&sys).await {
+                        return;
                     }
-                    return;
+                    continue;
                 }
                 Life::Dead => return,
             }
+            if poll!(&mut select).is_ready() {
+                break;
+            }
+            pending!();
         }
     }
 }
